@@ -583,7 +583,43 @@ pub fn generate(prop: &str, rng: &mut crate::rng::Rng, thorough: bool) -> ProofC
         sw.max_cons = 6;
     }
     sw.max_space = 3_000;
-    let (vars, cons) = gen_model(rng, &sw);
+    if !optimise && rng.chance(0.45) {
+        // denser refutations: more variables with two or three values and more constraints, so
+        // that conflicts are several propagations deep, facts get derived at the root in between,
+        // and minimisation has something to remove
+        sw.min_vars = 5;
+        sw.max_vars = 9;
+        sw.max_domain = 3;
+        sw.min_cons = 6;
+        sw.max_cons = 12;
+        sw.max_space = 20_000;
+    }
+    let (mut vars, mut cons) = gen_model(rng, &sw);
+    if !optimise && rng.chance(0.3) {
+        // refutations that need search: colouring a dense graph with too few colours (pairwise
+        // not-equals propagate next to nothing), plus one or two constraints of the swarm
+        let m = rng.range(4, 6) as usize;
+        let k = rng.range(2, m as i64 - 1) as i32;
+        vars = (0..m).map(|_| VarDecl::interval(1, k)).collect();
+        if rng.chance(0.5) {
+            vars.push(VarDecl::boolean());
+        }
+        let keep = cons.len().min(rng.below(3));
+        let extra: Vec<Con> = cons.iter().take(keep).filter(|c| c.scope().iter().all(|v| *v < vars.len()) && crate::shrink::valid_con(c, &vars)).cloned().collect();
+        cons = vec![];
+        for i in 0..m {
+            for j in i + 1..m {
+                if rng.chance(0.85) {
+                    let (a, b) = (View::plain(i), View::plain(j));
+                    cons.push(match rng.below(4) {
+                        0 => Con::LinNe(vec![a, View { var: j, scale: -1, off: 0 }], 0),
+                        _ => Con::BinNe(a, b),
+                    });
+                }
+            }
+        }
+        cons.extend(extra);
+    }
     let mut ops = model_ops(&vars, &cons);
     if optimise {
         ops.push(Op::Optimise { obj: gen_view(rng, vars.len(), true), minimise: rng.chance(0.5), sat_unsat: rng.chance(0.5), interrupt: None });
